@@ -182,6 +182,9 @@ def _qr_cases():
     for name, col, norm in (("1 x 1, single column", [5], 5), ("2 x 1, single column", [3, 4], 5), ("3 x 1, single column", [2, 3, 6], 7)):
         g = [[F(v)] for v in col]
         cases.append((name, g, ([[F(v, norm)] for v in col], [[F(norm)]], [0])))
+    # single column whose overall scale is far below the absolute tolerances of the code: the coefficients are still the operator
+    tiny = F(1, 10 ** 12)
+    cases.append(("2 x 1, single column of overall scale 1e-12", [[3 * tiny], [4 * tiny]], ([[F(3, 5)], [F(4, 5)]], [[5 * tiny]], [0])))
     # several columns: gamma[:, p] = q r with orthonormal rational columns of q, upper-triangular r with decreasing diagonal
     def build(q, r, p):
         R_, K, C = len(q), len(r), len(r[0])
